@@ -10,6 +10,8 @@ import (
 	"io"
 	"net"
 	"os"
+	"runtime"
+	"sync/atomic"
 	"time"
 
 	modbus "github.com/aldas/go-modbus-client"
@@ -25,8 +27,9 @@ type seqConn struct {
 	dev         *spec.Device
 	chunks      [][]byte
 	rdl         time.Time
-	mute        bool // requests are swallowed: no reply (the line stalls)
-	eofNow      bool // the peer closes instead of answering
+	abandoned   *int32 // set when the sequence was given up as hung: the transport then ends the calling goroutine
+	mute        bool   // requests are swallowed: no reply (the line stalls)
+	eofNow      bool   // the peer closes instead of answering
 }
 
 func (c *seqConn) Write(p []byte) (int, error) {
@@ -44,6 +47,11 @@ func (c *seqConn) Write(p []byte) (int, error) {
 }
 
 func (c *seqConn) Read(p []byte) (int, error) {
+	if c.abandoned != nil && atomic.LoadInt32(c.abandoned) != 0 {
+		// the check has reported this sequence as hung and moved on: a goroutine that is still spinning here would keep
+		// advancing the virtual clock under everything that runs afterwards
+		runtime.Goexit()
+	}
 	vtime.Advance(10 * time.Microsecond)
 	if len(c.chunks) == 0 {
 		if c.eofNow && !c.serial {
@@ -83,9 +91,12 @@ func sequenceCheck(res *ev.Result) (calls int64) {
 	}
 	for _, kind := range []string{"tcp", "rtu-net", "serial", "serial-flusher"} {
 		rtu := kind != "tcp"
-		for _, first := range []string{"stall-until-timeout", "stall-twice", "cancelled-context", "eof-before-reply", "not-connected", "not-connected-twice", "nil-request"} {
+		for _, first := range []string{"stall-until-timeout", "stall-twice", "cancelled-context", "eof-before-reply", "not-connected", "not-connected-twice", "nil-request", "stall-then-peer-closed"} {
 			if first == "eof-before-reply" && rtu && kind != "rtu-net" {
 				continue
+			}
+			if first == "stall-then-peer-closed" && kind != "tcp" && kind != "rtu-net" {
+				continue // "the peer closes the stream" is a network notion
 			}
 			if (first == "not-connected" || first == "not-connected-twice") && kind != "tcp" && kind != "rtu-net" {
 				continue // a serial client is "connected" by construction
@@ -98,8 +109,9 @@ func sequenceCheck(res *ev.Result) (calls int64) {
 				want []byte
 			}
 			done := make(chan []outcome, 1)
+			abandoned := new(int32)
 			go func() {
-				conn := &seqConn{rtu: rtu, serial: kind == "serial" || kind == "serial-flusher", dev: spec.NewDevice(spec.ImageHash, spec.BitImage)}
+				conn := &seqConn{abandoned: abandoned, rtu: rtu, serial: kind == "serial" || kind == "serial-flusher", dev: spec.NewDevice(spec.ImageHash, spec.BitImage)}
 				vtime.ResetClock()
 				var cl doer
 				var netClient *modbus.Client
@@ -164,6 +176,18 @@ func sequenceCheck(res *ev.Result) (calls int64) {
 				if first == "not-connected" || first == "not-connected-twice" {
 					netClient.Connect(context.Background(), "x") // now connect: the refused calls must have left nothing behind
 				}
+				if first == "stall-then-peer-closed" {
+					// after the failed call the peer closes the stream for good: every later call must still RETURN (with an
+					// error) - whatever the client does about the earlier failure must not wait for a stream that has ended
+					conn.eofNow = true
+					for n := 0; n < 2; n++ {
+						q, _ := mk(10 + n)
+						resp, err := lib.SafeDo(cl.Do, context.Background(), q)
+						outs = append(outs, outcome{step: "later-on-closed-stream", resp: resp, err: err})
+					}
+					done <- outs
+					return
+				}
 				for n := 0; n < 2; n++ {
 					q, want := mk(10 + n)
 					resp, err := lib.SafeDo(cl.Do, context.Background(), q)
@@ -188,6 +212,10 @@ func sequenceCheck(res *ev.Result) (calls int64) {
 						if o.err == nil || !lib.IsNil(o.resp) {
 							fail("reports-success", fmt.Sprintf("call %d (transport fault: %s) returned (%v, %v)", i, first, o.resp, o.err))
 						}
+					case "later-on-closed-stream":
+						if o.err == nil || !lib.IsNil(o.resp) {
+							fail("reports-success", fmt.Sprintf("call %d on a stream the peer has closed returned (%v, %v)", i, o.resp, o.err))
+						}
 					case "later":
 						if o.err != nil || lib.IsNil(o.resp) {
 							fail("later-call-fails", fmt.Sprintf("call %d, answered normally by the transport, returned (%v, %v)", i, o.resp, o.err))
@@ -197,6 +225,8 @@ func sequenceCheck(res *ev.Result) (calls int64) {
 					}
 				}
 			case <-time.After(60 * time.Second):
+				atomic.StoreInt32(abandoned, 1)
+				time.Sleep(50 * time.Millisecond) // let a spinning goroutine reach the transport once more and end
 				// no virtual-time progress can explain a minute of real time: a call is blocked for good
 				fail("hang", "the sequence did not finish: a request call never returned (60 s of real time; every wait of the client is on the virtual clock)")
 			}
